@@ -183,7 +183,9 @@ func c06own(c *core.Ctx, r *core.Reporter) {
 					continue
 				}
 				// only lists that are Lisp objects: obtained by asserting an Object to a list type
-				if !fromObjectAssert(targets[0], 0) {
+				// ... or, in a helper, a list parameter (the callers decide whether what they pass is a Lisp object)
+				_, isEntryFn := entries[fn]
+				if !fromObjectAssert(targets[0], 0) && (isEntryFn || !fromListParam(targets[0], 0)) {
 					continue
 				}
 				nSinks++
@@ -287,6 +289,7 @@ func copiesArgumentList(an *own.Analyzer, fn *ssa.Function) bool {
 	return false
 }
 var ownExceptions = map[string]string{
+	"slip.EvalArg|store into param:args": "replaces a form in a code list by its compiled function object (ListToFunc), the code-caching idiom decided by C08.cache, not a write into Lisp data",
 	"pkg/cl.(Append).Call|append into extract#0(assert:slip.List)":   "the accumulator reaches this append only as the copy made when the first non-empty list was seen (make+copy a few lines above) or as the result of an earlier append onto that copy; the paths on which the accumulator is an argument itself have len 0 or are not lists and take the other branch (path reasoning beyond the flow-insensitive engine)",
 	"pkg/cl.(Append).Call|append into extract#0(assert:slip.List)#2": "as the first append in Append.Call: the accumulator is the private copy",
 	"pkg/gi.(Select).prepClauses|store into extract#0(assert:slip.List)": "replaces the channel form of a select clause by its compiled function object (ListToFunc), the code-caching idiom of C08.cache, not a data write",
@@ -327,6 +330,32 @@ func fromObjectAssert(v ssa.Value, depth int) bool {
 	case *ssa.Call:
 		if bi, ok := x.Call.Value.(*ssa.Builtin); ok && bi.Name() == "append" {
 			return fromObjectAssert(x.Call.Args[0], depth+1)
+		}
+	}
+	return false
+}
+
+// fromListParam: the written list is (a reslice or append result of) a parameter of the function.
+func fromListParam(v ssa.Value, depth int) bool {
+	if depth > 8 || v == nil {
+		return false
+	}
+	switch x := v.(type) {
+	case *ssa.Parameter:
+		return x.Parent().Signature.Recv() == nil || x != x.Parent().Params[0]
+	case *ssa.Slice:
+		return fromListParam(x.X, depth+1)
+	case *ssa.ChangeType:
+		return fromListParam(x.X, depth+1)
+	case *ssa.Phi:
+		for _, e := range x.Edges {
+			if fromListParam(e, depth+1) {
+				return true
+			}
+		}
+	case *ssa.Call:
+		if bi, ok := x.Call.Value.(*ssa.Builtin); ok && bi.Name() == "append" {
+			return fromListParam(x.Call.Args[0], depth+1)
 		}
 	}
 	return false
